@@ -9,6 +9,7 @@
 (c) 1-5 fitted curves (synthetic and recorded) are saved to a rating container, exported
     with ``RateManager.export_training_set`` and loaded again.
 """
+import hashlib
 import itertools
 import math
 import pathlib
@@ -99,6 +100,10 @@ def expected_columns(names, which_type):
     if names:
         pool &= set(names)
     return sorted(pool)
+
+
+def content_id(path):
+    return hashlib.sha256(pathlib.Path(path).read_bytes()).hexdigest()[:12]
 
 
 def fresh_dir(ctx, stem):
@@ -278,9 +283,13 @@ def verify_directory(path, names, which_type, ctx, desc, tag=None):
         bad = None
         for j in range(nexp):
             for c in range(len(cols)):
-                if not cell_ok(float(X[j, c]), exp["rows"][j][c], exp["tol"][c]):
+                got, want = float(X[j, c]), exp["rows"][j][c]
+                if not cell_ok(got, want, exp["tol"][c]):
                     bad = (j, c)
                     break
+                if exp["tol"][c] and got != want and math.isfinite(want):
+                    ctx.extra["max_imputed_dev_over_tol"] = max(ctx.extra.get("max_imputed_dev_over_tol", 0.0),
+                                                                abs(got - want) / exp["tol"][c])
             if bad:
                 break
         if bad:
@@ -510,7 +519,7 @@ def check_export(case, ctx):
             for pos, i in enumerate(members):
                 position[i] = pos
         container = wd / "ratings.h5"
-        model = {}      # (file name, enum) -> {"features": {name: value}, "rating": r}
+        model = {}      # (file content id, enum) -> {"features": {name: value}, "rating": r}
         saved = []      # keys in save order (first save)
         curves = {}     # key -> fitted Indentation
         for i, it in enumerate(items):
@@ -530,7 +539,8 @@ def check_export(case, ctx):
                         groups[gk] = nanite.IndentationGroup(REPO / "tests" / "data" / it["name"])
                     grp = groups[gk]
                     idnt = grp[it["idx"] % len(grp)]
-                key = (pathlib.Path(idnt.path).name, int(idnt.enum))
+                # the container addresses measurement files by content: byte-identical files are one file
+                key = (content_id(idnt.path), int(idnt.enum))
                 if key not in model:
                     try:
                         idnt.fit_model(model_key=it["model_key"], preprocessing=list(PREPROC[it["prep"]]))
@@ -562,8 +572,8 @@ def check_export(case, ctx):
         with h5py.File(container, "r") as h5:
             for akey in h5["analysis"]:
                 at = h5["analysis"][akey].attrs
-                src = pathlib.Path(h5["data"][at["data hash"]].attrs["path"]).name
-                order.append((src, int(at["data enum"])))
+                src = h5["data"][at["data hash"]].attrs["path"]
+                order.append((content_id(src), int(at["data enum"])))
         if sorted(order) != sorted(model):
             raise AssertionError(f"harness: container entries {order} vs saved {sorted(model)}")
         if order != saved:
@@ -643,16 +653,16 @@ def st_export(draw):
                            sampling=("linear", "jitter"), wide=False)
     fit = {"model_key": st.sampled_from(FIT_MODELS), "prep": st.integers(0, len(PREPROC) - 1),
            "rating": st.integers(0, 10)}
-    item = st.one_of(
-        st.fixed_dictionaries(dict(fit, src=st.just("synth"), curve=curve, file=st.integers(0, 1))),
-        st.fixed_dictionaries(dict(fit, src=st.just("synth"), curve=curve, file=st.integers(0, 1))),
-        st.fixed_dictionaries(dict(fit, src=st.just("file"), name=st.sampled_from(RECORDED),
-                                   idx=st.integers(0, 7))),
-        st.fixed_dictionaries({"src": st.just("again"), "ref": st.integers(0, 4), "rating": st.integers(0, 10)}),
-    )
+    synthetic = st.fixed_dictionaries(dict(fit, src=st.just("synth"), curve=curve, file=st.integers(0, 1)))
+    recorded = st.fixed_dictionaries(dict(fit, src=st.just("file"), name=st.sampled_from(RECORDED),
+                                          idx=st.integers(0, 7)))
+    again = st.fixed_dictionaries({"src": st.just("again"), "ref": st.integers(0, 4), "rating": st.integers(0, 10)})
+    lo, hi = draw(st.sampled_from([(0, 0), (1, 2), (1, 2), (3, 4), (3, 4)]))
+    items = [draw(st.one_of(synthetic, recorded))]
+    items += draw(st.lists(st.one_of(synthetic, synthetic, recorded, again), min_size=lo, max_size=hi))
     names = draw(st.one_of(st.none(), st.lists(st.sampled_from(allf), min_size=1, max_size=6),
                            st.permutations(conf)))
-    return {"kind": "export", "items": draw(st.lists(item, min_size=1, max_size=5)),
+    return {"kind": "export", "items": items,
             "layout_reversed": draw(st.booleans()), "names": names,
             "which_type": draw(st.sampled_from(WHICH))}
 
@@ -697,7 +707,7 @@ def dispatch(case, ctx):
 def run(ctx):
     feature_names()
     ctx.enumerate(fixed_cases(), dispatch, label="fixed", stop_after=10)
-    ctx.hypothesis(st_load(), check_load, ctx.scale(10000, 200000), label="load")
+    ctx.hypothesis(st_load(), check_load, ctx.scale(8000, 200000), label="load")
     ctx.hypothesis(st_weights(), check_weights, ctx.scale(4000, 80000), label="weights")
     ctx.hypothesis(st_export(), check_export, ctx.scale(96, 1600), label="export")
 
